@@ -581,6 +581,17 @@ SYNTH_STATIC = {
         return;
     }
 }''',
+    '__collect_string': '''fn __collect_string(_1: &mut I) -> String {
+    bb0: {
+        _2 = __drain(copy _1) -> [return: bb1, unwind continue];
+    }
+    bb1: {
+        _0 = __vec_to_string(move _2) -> [return: bb2, unwind continue];
+    }
+    bb2: {
+        return;
+    }
+}''',
     '__chain_next': '''fn __chain_next(_1: &mut I) -> Option {
     bb0: {
         _2 = __adapt_inner_next(copy _1) -> [return: bb1, unwind continue];
@@ -597,6 +608,37 @@ SYNTH_STATIC = {
     }
     bb4: {
         _0 = move _2;
+        return;
+    }
+}''',
+    '__flat_map_next': '''fn __flat_map_next(_1: &mut I) -> Option {
+    bb0: {
+        _2 = __fm_cur_next(copy _1) -> [return: bb1, unwind continue];
+    }
+    bb1: {
+        _3 = discriminant(_2);
+        switchInt(move _3) -> [0: bb2, otherwise: bb6];
+    }
+    bb2: {
+        _4 = __adapt_inner_next(copy _1) -> [return: bb3, unwind continue];
+    }
+    bb3: {
+        _5 = discriminant(_4);
+        switchInt(move _5) -> [0: bb7, otherwise: bb4];
+    }
+    bb4: {
+        _6 = move ((_4 as Some).0: T);
+        _7 = __adapt_call(copy _1, move _6) -> [return: bb5, unwind continue];
+    }
+    bb5: {
+        _8 = __fm_set_cur(copy _1, move _7) -> [return: bb0, unwind continue];
+    }
+    bb6: {
+        _0 = move _2;
+        return;
+    }
+    bb7: {
+        _0 = Option::<T>::None;
         return;
     }
 }''',
@@ -778,6 +820,8 @@ def model(ex, st, c, args):
              'core::panicking::unreachable_display', 'core::panicking::panic_display'):
         msg = D(args[0]) if args else ''
         raise Panic('explicit panic: %s' % (msg.concrete() if isinstance(msg, SStr) else 'formatted message'))
+    if c == '__drain':
+        return ('BODY', synth_static(ex, '__drain'), args)
     if c == '__call_value':
         f = args[0]
         rest = args[1:]
@@ -1202,6 +1246,23 @@ def model(ex, st, c, args):
         ad = D(args[0])
         end = ex.ref_chain_end(args[0])
         return iter_next(ex, st, ad.fn, Ref(end.cell, list(end.path) + [('attr', 'fn')]), '__iter_next')
+    if c == '__fm_cur_next':
+        ad = D(args[0])
+        if ad.cur is None:
+            return none()
+        end = ex.ref_chain_end(args[0])
+        return iter_next(ex, st, ad.cur, Ref(end.cell, list(end.path) + [('attr', 'cur')]), '__iter_next')
+    if c == '__fm_set_cur':
+        ad = D(args[0])
+        inner = args[1]
+        if isinstance(inner, VecV):
+            inner = OwnIter(inner.items)
+        elif isinstance(inner, SStr):
+            inner = OwnIter(inner.items)
+        elif isinstance(inner, Adt) and inner.ty == 'Option':
+            inner = OwnIter(inner.fields if inner.variant == 1 else [])
+        ad.cur = inner
+        return mkunit()
     if c == '__adapt_call':
         ad = D(args[0])
         return call_value(ex, st, ad.fn, [args[1]])
@@ -1327,6 +1388,12 @@ def model(ex, st, c, args):
             return z3.Or(rng('!', '/'), rng(':', '@'), rng('[', '`'), rng('{', '~'))
         if f == 'is_ascii_control':
             return z3.Or(z3.ULT(t, 0x20), t == 0x7f)
+        if f in ('to_lowercase', 'to_uppercase'):
+            tt = z3.simplify(t)
+            if z3.is_bv_value(tt) and tt.as_long() < 128:
+                ch = chr(tt.as_long())
+                return OwnIter([mkchar(ch.lower() if f == 'to_lowercase' else ch.upper())])
+            return OwnIter([Opaque('char_' + f, (Int(t, False),))])
         if f == 'to_ascii_lowercase':
             return Int(z3.If(rng('A', 'Z'), t + 32, t), False)
         if f == 'to_ascii_uppercase':
@@ -1435,6 +1502,8 @@ def model(ex, st, c, args):
         raise Unsupported('skip/take on %r' % (it,))
     if c.endswith(' as Iterator>::chain'):
         return AdaptV('chain', args[0], args[1])
+    if c.endswith(' as Iterator>::flat_map'):
+        return AdaptV('flat_map', args[0], args[1])
     if c.endswith(' as Iterator>::filter'):
         return AdaptV('filter', args[0], args[1])
     if c.endswith(' as Iterator>::any'):
@@ -1444,8 +1513,14 @@ def model(ex, st, c, args):
     if c.endswith(' as Iterator>::collect') or c.endswith(' as Iterator>::last'):
         if c.endswith('collect'):
             it = args[0]
+            raw = getattr(st, 'cur_raw', '') or ''
+            if 'collect::<std::string::String>' in raw or 'collect::<String>' in raw:
+                return ('BODY', synth_static(ex, '__collect_string'), [Ref(st.new_cell(it), [])])
             return ('BODY', synth_static(ex, '__drain'), [Ref(st.new_cell(it), [])])
         raise Unsupported(c)
+    if c == '__vec_to_string':
+        v = args[0]
+        return SStr(v.items)
     if c.endswith(' as Iterator>::next_back') or c.endswith(' as DoubleEndedIterator>::next_back'):
         it = D(args[0])
         if isinstance(it, IterV):
@@ -1940,6 +2015,8 @@ def iter_next(ex, st, it, handle, c):
             return ('BODY', synth_static(ex, '__map_next'), [end])
         if it.kind == 'filter':
             return ('BODY', synth_static(ex, '__filter_next'), [end])
+        if it.kind == 'flat_map':
+            return ('BODY', synth_static(ex, '__flat_map_next'), [end])
         if it.kind == 'chain':
             return ('BODY', synth_static(ex, '__chain_next'), [end])
         if it.kind == 'cloned':
